@@ -96,10 +96,156 @@ func configs07(tier string) []xplore.Config {
 				Data: cfg07{true, true, true, sp, nil}})
 		}
 	}
+	// two callers with different identities whose calls overlap (both arrive
+	// from the same peer address: a proxy, a NAT, one client process acting for
+	// several users): the per-call ACL is a function of the CALL's credentials
+	for _, first := range []string{"admin", "guest"} {
+		for _, second := range []string{"admin", "guest", ""} {
+			if first == second {
+				continue
+			}
+			for _, md := range []pb.SubscriptionList_Mode{pb.SubscriptionList_ONCE, pb.SubscriptionList_STREAM} {
+				for _, tg := range []string{"t1", "*"} {
+					d := cfg07two{first: first, second: subSpec{target: tg, paths: []string{"*"}, mode: md, user: second}}
+					out = append(out, xplore.Config{Name: fmt.Sprintf("two callers: %s holds a STREAM on *; then %q calls %s; t1 is denied to guest; W(t1)=upd a/b W(t2)=upd a/b", first, second, d.second), Bound: bound - 1, Data: d})
+				}
+			}
+		}
+	}
 	return out
 }
 
+type cfg07two struct {
+	first  string
+	second subSpec
+}
+
+// idACL: the per-call ACL is built from the identity in the call's context.
+type idACL struct{}
+
+func (idACL) NewRPCACL(ctx context.Context) (subscribe.RPCACL, error) {
+	u, _ := ctx.Value(userKey{}).(string)
+	switch u {
+	case "admin":
+		return rpcACL{&acl{allowed: map[string]bool{"t1": true, "t2": true}}}, nil
+	case "guest":
+		return rpcACL{&acl{allowed: map[string]bool{"t2": true}}}, nil
+	}
+	return nil, errors.New("no credentials")
+}
+func (idACL) Check(user, target string) bool { return user == "admin" || target == "t2" }
+
+func run07two(cfg xplore.Config, ch vrt.Chooser, trace bool) (xplore.Outcome, *vrt.Result) {
+	d := cfg.Data.(cfg07two)
+	var out xplore.Outcome
+	res := vrt.Run(ch, vrt.Options{Reverse: cfg.Reverse, Trace: trace}, func() {
+		w := newWorld([]string{"t1", "t2"}, subscribe.WithACL(idACL{}))
+		setupInitial(w)
+		allowed := func(user, t string) bool { return user == "admin" || (user == "guest" && t == "t2") }
+		stA := newStream(subSpec{target: "*", paths: []string{"*"}, mode: pb.SubscriptionList_STREAM, user: d.first})
+		stB := newStream(d.second)
+		w.streams = []*fstream{stA, stB}
+		aSync := make(chan struct{}, 8)
+		stA.onSync = func() { vrt.Send(aSync, struct{}{}) }
+		vrt.GoNamed("rpc-first", func() {
+			stA.status = w.srv.Subscribe(stA)
+			stA.returned = true
+			stA.cancel()
+		})
+		vrt.GoNamed("rpc-second", func() {
+			// the second call starts once the first has its snapshot
+			switch vrt.Select(false, vrt.R(aSync), vrt.R(stA.ctx.Done())) {
+			case 0:
+				vrt.RecvNow(aSync)
+			}
+			stB.status = w.srv.Subscribe(stB)
+			stB.returned = true
+			stB.cancel()
+		})
+		w.wdone = make([]bool, 2)
+		for i, t := range []string{"t1", "t2"} {
+			i, t := i, t
+			vrt.GoNamed("writer-"+t, func() {
+				w.apply(t, wop{"upd", "a/b"})
+				w.wdone[i] = true
+			})
+		}
+		settle()
+		out.Obs = fmt.Sprintf("A %v|%s || B %v|%s", status.Code(stA.status), renderLog(stA.log), status.Code(stB.status), renderLog(stB.log))
+		out.Nontrivial = true
+		for _, x := range []struct {
+			st   *fstream
+			user string
+		}{{stA, d.first}, {stB, d.second.user}} {
+			for _, r := range x.st.log {
+				if n := r.GetUpdate(); n != nil {
+					if t := n.GetPrefix().GetTarget(); !allowed(x.user, t) {
+						viol(&out, "denied-target-data-sent", "%s: caller %q was sent a response for target %q, which its credentials deny: %s", cfg.Name, x.user, t, renderLog([]*pb.SubscribeResponse{r}))
+					}
+				}
+			}
+		}
+		if stA.returned {
+			viol(&out, "stream-ended", "%s: the first caller's stream ended with %v", cfg.Name, stA.status)
+		}
+		switch {
+		case d.second.user == "":
+			if status.Code(stB.status) != codes.Unauthenticated || len(stB.log) != 0 || !stB.returned {
+				viol(&out, "unauthenticated-expected", "%s: the second call carries no credentials but ended=%v with %v after %d responses", cfg.Name, stB.returned, stB.status, len(stB.log))
+			}
+		case d.second.target != "*" && !allowed(d.second.user, d.second.target):
+			if status.Code(stB.status) != codes.PermissionDenied || len(stB.log) != 0 || !stB.returned {
+				viol(&out, "permission-denied-expected", "%s: the second caller asked for a target its credentials deny but the call ended=%v with %v after %d responses", cfg.Name, stB.returned, stB.status, len(stB.log))
+			}
+		default:
+			// completeness: what its own credentials allow, it gets
+			if stB.returned && stB.status != nil {
+				viol(&out, "status", "%s: the second call ended with %v", cfg.Name, stB.status)
+				break
+			}
+			want := w.expected(d.second)
+			for k := range want {
+				if !allowed(d.second.user, k[:strings.Index(k, "|")]) {
+					delete(want, k)
+				}
+			}
+			if d.second.mode == pb.SubscriptionList_STREAM {
+				rep, _ := replay(stB.log)
+				if renderMap(rep) != renderMap(want) {
+					viol(&out, "authorised-data-missing", "%s: replaying the second caller's responses yields\n  %s\nits authorised matching content is\n  %s", cfg.Name, renderMap(rep), renderMap(want))
+				}
+			} else {
+				seen := map[string]bool{}
+				for _, r := range stB.log {
+					if n := r.GetUpdate(); n != nil {
+						seen[n.GetPrefix().GetTarget()] = true
+					}
+				}
+				for k := range want {
+					if t := k[:strings.Index(k, "|")]; !seen[t] {
+						viol(&out, "authorised-data-missing", "%s: the second caller's snapshot has nothing for target %s, which its credentials allow", cfg.Name, t)
+						break
+					}
+				}
+			}
+		}
+		stA.cancel()
+		stB.cancel()
+		vrt.Idle()
+		if !vrt.AllDone() {
+			viol(&out, "deadlock", "threads never finished after cancel: %v", vrt.ParkedInfo())
+		}
+	})
+	if res.Aborted != "" {
+		viol(&out, hutil.AbortClass(res.Aborted, res.Panic), "%s %s", res.Aborted, strings.Join(res.Parked, "; "))
+	}
+	return out, res
+}
+
 func run07(cfg xplore.Config, ch vrt.Chooser, trace bool) (xplore.Outcome, *vrt.Result) {
+	if _, ok := cfg.Data.(cfg07two); ok {
+		return run07two(cfg, ch, trace)
+	}
 	d := cfg.Data.(cfg07)
 	var out xplore.Outcome
 	res := vrt.Run(ch, vrt.Options{Reverse: cfg.Reverse, Trace: trace}, func() {
